@@ -1240,6 +1240,11 @@ class DirReloc(CStruct):
         dirrel = self.parent_head.NThdr.optentries[DIRECTORY_ENTRY_BASERELOC]
         if not rels:
             return
+        if self.reldesc is None:
+            # Image without relocation directory (fresh or parsed): create it
+            self.reldesc = []
+        if dirrel.size is None:
+            dirrel.size = 0
         rels.sort()
         all_base_ad = set([x & 0xFFFFF000 for x in rels])
         all_base_ad = list(all_base_ad)
